@@ -271,7 +271,12 @@ func c04Census() (total, blocked int) {
 
 func c04CountStacks(dump string) (total, blocked int) {
 	for _, blk := range strings.Split(dump, "\n\n") {
-		if !strings.Contains(blk, "github.com/tonistiigi/fsutil") {
+		// goroutines inside fsutil, and the two goroutines that call Send / Receive (also while
+		// they are between the return of the call and the hand-over of its result)
+		// (fsutil starts goroutines through errgroup only: one that has not run yet shows nothing
+		// but the errgroup frame)
+		if !strings.Contains(blk, "github.com/tonistiigi/fsutil") && !strings.Contains(blk, "main.c04Call") &&
+			!strings.Contains(blk, "golang.org/x/sync/errgroup") {
 			continue
 		}
 		total++
@@ -521,8 +526,8 @@ func c04Run(cfg c04Cfg) (res c04Res) {
 	}
 	sdone := make(chan error, 1)
 	rdone := make(chan error, 1)
-	go func() { sdone <- c04Guard(func() error { return fsutil.Send(ctxS, pair.E[0], mem, nil) }) }()
-	go func() { rdone <- c04Guard(func() error { return fsutil.Receive(ctxR, pair.E[1], cfg.Dest, opt) }) }()
+	go c04Call(sdone, func() error { return fsutil.Send(ctxS, pair.E[0], mem, nil) })
+	go c04Call(rdone, func() error { return fsutil.Receive(ctxR, pair.E[1], cfg.Dest, opt) })
 
 	res.Send, res.Recv = 2, 2
 	pending := 2
@@ -571,6 +576,9 @@ loop:
 				tear()
 				continue
 			}
+			if len(sdone)+len(rdone) > 0 {
+				continue // a call has returned: handle that first
+			}
 			act := atomic.LoadInt64(&pair.activity)
 			total, blocked := c04Census()
 			if total-base >= pending && total == blocked && act == lastAct {
@@ -579,7 +587,7 @@ loop:
 				quietRuns = 0
 			}
 			lastAct = act
-			if quietRuns >= 2 {
+			if quietRuns >= 3 {
 				// quiescence: every goroutine of both calls is parked and nothing moved
 				res.Quiesced = true
 				tear()
@@ -610,6 +618,9 @@ loop:
 	nmu.Unlock()
 	return res
 }
+
+// c04Call runs one of the two calls; its frame marks the goroutine for the census.
+func c04Call(done chan<- error, f func() error) { done <- c04Guard(f) }
 
 type c04Panic struct{ v interface{} }
 
@@ -867,7 +878,7 @@ func c04Case(view, prior []*MNode, kind, a, b, fanout, capacity, chunk int) Sx {
 }
 
 func genC04(g *Gen) {
-	r := g.Rng
+	r := g.Rng.Fork() // seeds k and k+1 of the shared generator yield the same stream shifted by one draw
 	emit := func(in Sx, cls string) {
 		out := run0401(in)
 		fired := len(out.L) > 9 && out.L[9].IsTrue()
@@ -1042,7 +1053,7 @@ func run0801(in Sx) (out Sx) {
 }
 
 func genC08(g *Gen) {
-	r := g.Rng
+	r := g.Rng.Fork()
 	n := g.Vol(120, 600)
 	nsched := g.Vol(8, 32)
 	for i := 0; i < n; i++ {
